@@ -1118,4 +1118,7 @@ func main() {
 		Reset: reset,
 		Exec:  exec,
 	})
+	if w != nil {
+		w.cleanup() // temp dirs of the last case (goleveldb backend)
+	}
 }
